@@ -256,7 +256,7 @@ func c32NewEnv(nSecrets, bitsPerByte int) *c32Env {
 	s1 := sha256.Sum256([]byte("verif-c32-session-1"))
 	s2 := append([]byte(nil), s0[:]...)
 	s2[31] ^= 1
-	all := [][]byte{s0[:], s1[:], s2, s0[:31], {}}
+	all := [][]byte{s0[:], s2, {}, s1[:], s0[:31]}
 	e.secrets = all[:nSecrets]
 	e.keyForms = c32KeyForms()
 	e.sigForms = c32SigForms(bitsPerByte)
@@ -717,10 +717,6 @@ func (e *c32Env) runRelay(r *ev.Run, c *c32RelayCase, acc, rej *int64) {
 		r.Violation("session-secret-mismatch", fmt.Sprintf("client %x server %x %s", into.clientSecret, into.serverSecret, c.Desc), c)
 		return
 	}
-	if from != into && bytes.Equal(from.clientSecret, into.clientSecret) {
-		r.Sanity(false, "two sessions derived the same secret")
-		return
-	}
 	same := c.From == c.Into
 	if c.Dir == "request" {
 		pan = ev.Catch(func() { as.onPacket(from.sigReq, into.ps) })
@@ -820,7 +816,7 @@ func TestVerifC32(t *testing.T) {
 	}
 
 	nK, nS, nF := len(e.keyForms), len(e.secrets), len(e.sigForms)
-	r.Rule(fmt.Sprintf("identities A,B,C + the node itself (fixed keys); %d session secrets (two unrelated, one differing in the last bit, one a 31-byte prefix, one empty); %d public key encodings (65/33/hybrid, wrong lengths, wrong prefixes, negated point, off-curve, unreduced coordinate, empty) ; %d signature forms (as signed, without V, V altered, high-S twin, lengths 0/32/63/66, zeros, r/s swapped/zero/=n/unreduced, %d single-bit flips of every R|S byte). (V) VerifySignature on the full product claimed(3) x key form x signer(3) x signed secret x presented secret x signature form; (H) handleSignatureRequest and handleSignatureResponse on in-package peers for the product restricted to a representative subset of forms, x in/out of sequence x Error field x packet src; (R) real SecureRequest/SecureResponse exchanges, every session's SignatureRequest/Response relayed into every session of {A, A again, B, C}. Non-trivial = (V) key and signature both parse so that ECDSA verification decides, (H,R) every case; distinct = the case tuple.", nS, nK, nF, bits*64))
+	r.Rule(fmt.Sprintf("identities A,B,C + the node itself (fixed keys); %d session secrets from {a 32-byte secret, the same with its last bit flipped, the empty secret, an unrelated one, a 31-byte prefix of the first}; %d public key encodings (65/33/hybrid, wrong lengths, wrong prefixes, negated point, off-curve, unreduced coordinate, empty) ; %d signature forms (as signed, without V, V altered, high-S twin, lengths 0/32/63/66, zeros, r/s swapped/zero/=n/unreduced, %d single-bit flips of every R|S byte). (V) VerifySignature on the full product claimed(3) x key form x signer(3) x signed secret x presented secret x signature form; (H) handleSignatureRequest and handleSignatureResponse on in-package peers for the product restricted to a representative subset of forms, x in/out of sequence x Error field x packet src; (R) real SecureRequest/SecureResponse exchanges, every session's SignatureRequest/Response relayed into every session of {A, A again, B, C}. Non-trivial = (V) key and signature both parse so that ECDSA verification decides, (H,R) every case; distinct = the case tuple.", nS, nK, nF, bits*64))
 	r.Assume("signatures are made by the real Authenticator.Signature with fixed keys; forging is represented by the mutation alphabet (no key-space search)",
 		"hybrid public key encodings and the high-S twin of a valid signature are mathematically valid proofs of possession: accepting or refusing them is both allowed",
 		"stage R uses fresh random ECDH keys (crypto/rand inside newSecureKey); the expected verdict does not depend on their values")
@@ -1021,7 +1017,7 @@ func TestVerifC32(t *testing.T) {
 
 	a := e.ids[0]
 	r.Sample(map[string]interface{}{"stage": "V", "case": "claimed=A key=compressed-33 signer=A signed=secret0 presented=secret0 sig=without-v-64", "expect": "accept, id=" + fmt.Sprintf("hx%x", a.idWant)})
-	r.Sample(map[string]interface{}{"stage": "V", "case": "claimed=A key=uncompressed-65 signer=A signed=secret0 presented=secret2 (last bit differs) sig=as-signed-65", "expect": "reject: signature over another session's secret"})
+	r.Sample(map[string]interface{}{"stage": "V", "case": "claimed=A key=uncompressed-65 signer=A signed=secret0 presented=secret1 (last bit differs) sig=as-signed-65", "expect": "reject: signature over another session's secret"})
 	r.Sample(map[string]interface{}{"stage": "V", "case": "claimed=A key=compressed-other-parity signer=A ...", "expect": "reject: the encoding names the negated point, a different key"})
 	r.Sample(map[string]interface{}{"stage": "H", "case": "handler=request wait=1 (SignatureRequest before any SecureRequest) with a valid proof of A", "expect": "peer closed, next handler not reached"})
 	r.Sample(map[string]interface{}{"stage": "R", "case": "request proof of session #0 (A) delivered into session #1 (A again)", "expect": "reject: same identity, other session secret"})
